@@ -23,6 +23,8 @@ ASSUMPTIONS = [
     "'preserve the instant' is claimed where the target type can hold the value: to_* for year 1..9999, no 24:00:00, |offset| < 24 h, exact down to "
     "the microsecond (the deviation fractional_second % 1000 ns is proved exactly); from_* for utcoffsets that are whole minutes (the deviation utcoffset % 1 min is proved exactly)",
     "xs:duration seconds are compared as the matched decimal text; the code hands that text to float()",
+    "hash(int) is that of a 64-bit CPython (modulus 2**61-1, asserted when the plug-in is loaded)",
+    "the converse theorems speak about s.strip(): Python's strip() removes more kinds of white space than XSD's four characters",
 ]
 
 # ----------------------------------------------------------------- impl side
@@ -431,6 +433,7 @@ PERIOD_HAND = [
     "--12+01:00", "--05--", "--05---05:00", "--05--Z", "--01-01", "--02-29", "--02-30", "--12-31", "--04-31", "--12-31Z", "--12-31-05:00",
     "2001", "-2001", "0000", "12345", "02001", "2001Z", "2001+02:00", "2001-05:00", "-2001-05:00", "2001-10", "2001-13", "2001-00",
     "2001-10Z", "2001-10+02:00", "2001-10-05:00", "-2001-10", "12345-10", "12345-10-05:00", " 2001 ", "2001-10-10", "", "-", "--", "---", "----01",
+    "--03---02", "--03---02Z", "--12---31+01:00", "--05----", "--05--+14:00", "--05--+14:01", "2001+14:01", "2001-15:00", "---01+99:00",
     "1:", "-1:", "20:01", "2001-1", "٢٠٠١", "2001-١٠", "--0٣", "99999-12+14:00", "1-10", "001-10", "-0001", "-0001-10",
 ]
 
@@ -755,6 +758,67 @@ def classify_std(a, o):
     return a["kind"] + ":" + ("ok" if "ok" in o else o["err"])
 
 
+# ----------------------------------------------------------------- instants and hashes
+from xsdata.models import datatype as _DT  # noqa: E402
+import sys as _sys  # noqa: E402
+
+assert _sys.hash_info.modulus == 2**61 - 1, "Py.pyHashInt models hash(int) of a 64-bit CPython"
+
+
+def impl_timeline(a):
+    """the real comparison key `_timeline(obj)` (nanoseconds since 0000-03-01T00:00:00Z)"""
+    return ok(_DT._timeline(KINDS[a["kind"]](*a["v"])))
+
+
+EPOCH_SHIFT_DAYS = 306  # 0000-03-01 .. 0001-01-01
+
+
+def impl_std_instant(a):
+    """instant of a *real* stdlib object by stdlib arithmetic only (aware - epoch), shifted to the model's
+    epoch; a naive object is read as UTC"""
+    kind, v = a["kind"], a["v"]
+    if kind == "time":
+        t = _dt.time(*v[:4], tzinfo=_mk_tz(v[4]))
+        off = t.utcoffset()
+        ns = ((t.hour * 60 + t.minute) * 60 + t.second) * 10**9 + t.microsecond * 1000
+        return ok(ns - (0 if off is None else (off // _US) * 1000))
+    d = _dt.datetime(*v[:7], tzinfo=_mk_tz(v[7]))
+    aware = d if d.tzinfo else d.replace(tzinfo=_dt.timezone.utc)
+    delta = aware - _dt.datetime(1, 1, 1, tzinfo=_dt.timezone.utc)
+    return ok(((delta.days + EPOCH_SHIFT_DAYS) * 86400 + delta.seconds) * 10**9 + delta.microseconds * 1000)
+
+
+def gen_std_instant(rng, tier):
+    for a in gen_from_std(rng, tier):
+        if a["kind"] == "datetime.from_datetime":
+            yield {"kind": "datetime", "v": a["v"]}
+        elif a["kind"] == "time.from_time":
+            yield {"kind": "time", "v": a["v"]}
+
+
+def gen_timeline(rng, tier):
+    for a in gen_cmp(rng, tier):
+        yield {"kind": a["kind"], "v": a["a"]}
+        if rng.random() < 0.3:
+            yield {"kind": a["kind"], "v": a["b"]}
+    # values far outside the standard library's range, unreal components (the key is total)
+    for y in (-10**12, -10**6, -401, 0, 10**6, 10**12):
+        for m, d in ((1, 1), (2, 29), (3, 1), (12, 31), (0, 0), (13, 32)):
+            yield {"kind": "datetime", "v": [y, m, d, 24, 0, 0, 0, rng.choice([None, 840, -840, 5999])]}
+
+
+def impl_hash(a):
+    return ok(hash(KINDS[a["kind"]](*a["v"])))
+
+
+def classify_instant(a, o):
+    v = a["v"]
+    if a["kind"] == "time":
+        return "time:" + ("notz" if v[-1] is None else "tz")
+    y = v[0]
+    return "datetime:" + ("y<1" if y < 1 else "y1-9999" if y <= 9999 else "y>9999") + (":notz" if v[-1] is None else ":tz")
+
+
 # ----------------------------------------------------------------- history independence (spec-level)
 def _snapshot(kind, s):
     try:
@@ -901,6 +965,12 @@ CORRS = [
          describe="to_date/to_time/to_datetime vs the record model of datetime (error kinds included)"),
     Corr("date.from_std", gen_from_std, impl_from_std, classify=classify_std,
          describe="from_date/from_time/from_datetime on real stdlib objects (utcoffset down to microseconds) vs model"),
+    Corr("date.timeline", gen_timeline, impl_timeline, classify=classify_instant,
+         describe="the real comparison key _timeline(obj) vs XmlDateTime.timeline / XmlTime.timeline"),
+    Corr("std.instant", gen_std_instant, impl_std_instant, classify=classify_instant,
+         describe="instant of real datetime/time objects by stdlib arithmetic (aware - epoch) vs PyDateTime.instantNs / PyTime.instantNs"),
+    Corr("date.hash", gen_timeline, impl_hash, classify=classify_instant,
+         describe="hash(XmlDateTime/XmlTime) vs pyHashInt of the model's timeline key"),
     Corr("date.repeat", gen_repeat, impl_repeat, spec=lambda a: ok(True), classify=lambda a, o: a["kind"] + "/" + a["kind2"],
          describe="spec-level: results do not depend on earlier parses / comparisons / conversions of the same objects"),
 ]
@@ -998,12 +1068,16 @@ def oracle_parse(a):
             if got != exp:
                 return f"XSD-valid {kind} {s!r} parsed as {got}, XSD assigns {exp}"
     if got is not None:
+        # converse (theorems *_accepts_only_valid): what is accepted is, after Python's strip(), an XSD lexical form
+        conv = xsd_components(kind, s.strip())
+        if conv is None:
+            return f"{kind} {s!r} is accepted as {got} but {s.strip()!r} is no XSD lexical form"
+        if conv != got:
+            return f"{kind} {s!r} is accepted as {got}, XSD assigns {conv}"
         if not real_value(kind, got):
             return f"{kind} {s!r} denotes no real calendar date/time of day but is accepted as {got}"
         if not _offset_ok(got):
-            # an offset beyond +-14:00 is not a valid value; the statement only
-            # speaks about dates / times of day and about valid values
-            return None
+            return f"{kind} {s!r} is accepted with a timezone beyond 14:00 ({got[-1]} minutes)"
         out = str(cls(*got))
         if xsd_components(kind, out) is None:
             return f"str() of parsed value {got} is {out!r}, not XSD-valid"
@@ -1099,15 +1173,28 @@ def oracle_period(a):
         if d is not None and not 1 <= d <= ([31, 29, 31, 30, 31, 30, 31, 31, 30, 31, 30, 31][mo - 1] if mo else 31):
             return f"{s!r} accepted with day {d}"
         out = str(XmlPeriod(s))
-        bogus = out.startswith("--") and out[4:6] == "--"  # the XSD 1.0 gMonth form --MM--, kept on purpose
-        if got["offset"] is not None and not -840 <= got["offset"] <= 840:
-            return None
-        if not bogus:
-            back = xsd_period(out)
-            if back is None:
-                return f"XmlPeriod({s!r}) is accepted and formats to {out!r}, no XSD-valid g* value"
-            if back != got:
-                return f"XmlPeriod({s!r}) formats to {out!r}, which XSD reads as {back}, not {got}"
+        back = xsd_period(out)
+        if back is None:
+            return f"XmlPeriod({s!r}) is accepted and formats to {out!r}, no XSD-valid g* value"
+        if back != got:
+            return f"XmlPeriod({s!r}) formats to {out!r}, which XSD reads as {back}, not {got}"
+    return None
+
+
+def covered_period(a, msg):
+    """C06-gmonth-legacy-spelling: the value is accepted, its string form is `--MM--` + timezone, i.e. exactly the
+    valid gMonth `--MM` + timezone with `--` inserted after the month, and the components are those of that gMonth"""
+    if " is accepted and formats to " not in msg:
+        return None
+    try:
+        p = XmlPeriod(a["s"])
+    except ValueError:
+        return None
+    out = str(p)
+    if len(out) >= 6 and out[:2] == "--" and out[2] != "-" and out[4:6] == "--":
+        exp = xsd_period(out[:4] + out[6:])
+        if exp is not None and exp["month"] is not None and exp["day"] is None and exp["year"] is None and p.as_dict() == exp:
+            return "C06-gmonth-legacy-spelling"
     return None
 
 
@@ -1282,17 +1369,87 @@ def oracle_from_std(a):
     return None
 
 
+def oracle_instant(a):
+    """the comparison key is the position on the timeline: checked against an independent computation
+    (date.toordinal inside a 400-year cycle + integer arithmetic for the cycles; in the standard library's
+    range also against `aware datetime - epoch`)"""
+    kind, v = a["kind"], a["v"]
+    if not real_value(kind, v):
+        return None
+    x = KINDS[kind](*v)
+    got = _DT._timeline(x)
+    shift = (EPOCH_SHIFT_DAYS - 1) * 86400 * 10**9 if kind == "datetime" else 0
+    want = ref_instant(kind, v) + shift
+    if got != want:
+        return f"_timeline({x!r}) = {got}, the timeline position is {want}"
+    if kind == "datetime" and 1 <= v[0] <= 9999 and v[3] != 24 and v[6] % 1000 == 0 and (v[7] is None or -1440 < v[7] < 1440):
+        d = _dt.datetime(*v[:6], v[6] // 1000, tzinfo=None if v[7] is None else _dt.timezone(_dt.timedelta(minutes=v[7])))
+        try:
+            aware = d if d.tzinfo else d.replace(tzinfo=_dt.timezone.utc)
+            delta = aware - _dt.datetime(1, 1, 1, tzinfo=_dt.timezone.utc)
+        except OverflowError:
+            return None
+        std = ((delta.days + EPOCH_SHIFT_DAYS) * 86400 + delta.seconds) * 10**9 + delta.microseconds * 1000
+        if got != std:
+            return f"_timeline({x!r}) = {got}, datetime arithmetic gives {std}"
+    return None
+
+
+def oracle_hash(a):
+    """equal values hash equal (and can share a set / dict slot)"""
+    kind = a["kind"]
+    if kind == "period":
+        try:
+            x, y = XmlPeriod(a["a"]), XmlPeriod(a["b"])
+        except ValueError:
+            return None
+    else:
+        cls = KINDS[kind]
+        x, y = cls(*a["a"]), cls(*a["b"])
+    try:
+        hx, hy = hash(x), hash(y)
+    except TypeError as e:
+        return f"hash({x!r}) raises TypeError: {e}"
+    if x == y and hx != hy:
+        return f"{x!r} == {y!r} but their hashes differ"
+    if x == y and len({x, y}) != 1:
+        return f"{x!r} == {y!r} but a set keeps both"
+    return None
+
+
+def gen_hash(rng, tier):
+    yield {"kind": "period", "a": "2001Z", "b": "2001+00:00"}
+    yield {"kind": "period", "a": " --05 ", "b": "--05"}
+    yield {"kind": "period", "a": "--05--", "b": "--05"}
+    yield {"kind": "period", "a": "---01-00:00", "b": "---01Z"}
+    for a in gen_cmp(rng, tier):
+        yield a
+    for s in PERIOD_HAND:
+        yield {"kind": "period", "a": s, "b": " " + s.replace("Z", "+00:00")}
+
+
 ORACLES = [
     Oracle("c06.parse", gen_oracle_parse, oracle_parse, from_ops=("date.parse",)),
     Oracle("c06.value", gen_str, oracle_value, from_ops=("date.str",)),
-    Oracle("c06.period", gen_period, oracle_period, from_ops=("period.parse",)),
+    Oracle("c06.period", gen_period, oracle_period, covered=covered_period, from_ops=("period.parse",)),
     Oracle("c06.duration", gen_dur, oracle_dur, from_ops=("dur.parse",)),
     Oracle("c06.cmp", gen_cmp, oracle_cmp, from_ops=("date.cmp",)),
     Oracle("c06.stdlib", gen_str, oracle_stdlib, from_ops=("date.str",)),
     Oracle("c06.from_std", gen_from_std, oracle_from_std, from_ops=("date.from_std",)),
+    Oracle("c06.instant", gen_timeline, oracle_instant, from_ops=("date.timeline",)),
+    Oracle("c06.hash", gen_hash, oracle_hash, from_ops=("date.cmp",)),
 ]
 
-FINDINGS = {}
+def replay_gmonth_legacy():
+    try:
+        a, b = XmlPeriod("--05--"), XmlPeriod(" --11---05:00")
+    except ValueError as e:
+        return False, f"rejected now: {e}"
+    ok_ = (str(a), a.as_dict(), str(b), b.offset) == ("--05--", {"year": None, "month": 5, "day": None, "offset": None}, "--11---05:00", -300)
+    return ok_ and xsd_period(str(a)) is None, f"str(XmlPeriod('--05--')) = {str(a)!r}, {a.as_dict()}"
+
+
+FINDINGS = {"C06-gmonth-legacy-spelling": replay_gmonth_legacy}
 
 LEVEL_TEXT = (
     "Lean theorems over all strings / all values, every Unicode environment: (acceptance) every XSD-valid lexical form of date/time/dateTime "
@@ -1301,16 +1458,20 @@ LEVEL_TEXT = (
     "shapes through XmlPeriod's dispatcher (period_accepts_g*) and xs:duration for every combination of components, sign and fractional seconds "
     "(duration_accepts_valid, duration_format_parse); (rejection) whatever from_string/XmlPeriod accept is a real calendar date / time of day "
     "(reject_unreal_*); (round trip) str() of every valid value parses back to it (*_format_parse); (timeline) the comparison key orders and "
-    "identifies values exactly as the calendar does (days_from_civil_*, datetime_key_*, timeline_end_of_day, timeline_offset); (standard library) "
+    "identifies values exactly as the calendar does (days_from_civil_*, datetime_key_*, timeline_end_of_day, timeline_offset), equal values hash equal "
+    "(datetime_eq_hash, time_eq_hash); (converse) whatever from_string accepts is, after Python's strip(), an XSD lexical form of xs:date / xs:time / "
+    "xs:dateTime with XSD's components (date/time/datetime_accepts_only_valid, date_accepts_iff_valid) — false for XmlPeriod because of the legacy "
+    "--MM-- spelling (period_accepts_only_valid_false, finding C06-gmonth-legacy-spelling); (standard library) "
     "to_datetime/to_time/to_date succeed exactly on the stated region, move the instant by exactly fractional_second % 1000 ns, from_* by exactly "
     "utcoffset % 1 min, and the two directions are inverse where representable (to_datetime_ok_iff, to_datetime_instant, from_to_datetime, "
     "from_datetime_instant, to_from_datetime, from_datetime_shape, and the XmlTime/XmlDate counterparts). The model is tied to the code by a "
-    "differential check of from_string/__str__/parse_date_args/int()/XmlPeriod/XmlDuration/_cmp/days_from_civil/to_*/from_* on hand-picked, "
+    "differential check of from_string/__str__/parse_date_args/int()/XmlPeriod/XmlDuration/_cmp/_timeline/__hash__/days_from_civil/to_*/from_* and of "
+    "the instants of real datetime objects (stdlib arithmetic) on hand-picked, "
     "bounded-exhaustive, grammar-drawn and mutated inputs; the property's own oracles are swept on the implementation on every run."
 )
 LEVEL_NOTE = (
     "Trusted: Lean kernel; hand models of CPython int()/strip/isdigit/format, of the duration regular expression and of the datetime constructors; "
     "the XSD grammar transcription; the sampling correspondence check. Not modelled: XmlDate/XmlPeriod/XmlDuration ordering (tuple / string order, "
-    "outside the statement), __hash__, replace(), now()/utcnow() beyond the shape of from_datetime results (the clock is not compared), "
+    "outside the statement), hash(XmlPeriod) beyond 'equal values hash equal' (oracle c06.hash), replace(), now()/utcnow() beyond the shape of from_datetime results (the clock is not compared), "
     "converter.py's strptime-based DateTimeConverter for stdlib types with a format."
 )
